@@ -162,10 +162,23 @@ def run_io(case, drv):
     fmt, via = case["fmt"], case["via"]
     bn = gen.bn_to_pgmpy(case)
     tags = dict(fmt=fmt, via=via, n=n, kw=any(k in nm for nm in names for k in KEYWORDS))
+    import numpy as np
+    before = [(str(c.variable), [str(x) for x in c.variables], np.array(c.values, dtype=float).copy(), {str(k): list(v) for k, v in c.state_names.items()})
+              for c in bn.get_cpds()]
     try:
         back = roundtrip(bn, fmt, via)
     except Exception as e:
         return fail(f"{fmt} write->read ({via}) raised {type(e).__name__}: {str(e)[:300]} (variables {names})", **tags)
+    # writing is an export: the model object that was written is exactly what it was (a later export of the same object depends on it)
+    after = [(str(c.variable), [str(x) for x in c.variables], np.array(c.values, dtype=float), {str(k): list(v) for k, v in c.state_names.items()})
+             for c in bn.get_cpds()]
+    if len(after) != len(before) or sorted(map(str, bn.nodes())) != sorted(names) or \
+            {(str(a), str(b)) for a, b in bn.edges()} != {(names[u], names[v]) for u, v in case["edges"]}:
+        return fail(f"{fmt} ({via}): writing changed the structure of the model that was written", **tags)
+    for b_, a_ in zip(before, after):
+        if b_[0] != a_[0] or b_[1] != a_[1] or b_[3] != a_[3] or b_[2].shape != a_[2].shape or not np.array_equal(b_[2], a_[2]):
+            return fail(f"{fmt} ({via}): writing modified the CPD of {b_[0]} of the model that was written "
+                        f"(max change {float(np.max(np.abs(b_[2] - a_[2]))) if b_[2].shape == a_[2].shape else 'shape'})", **tags)
     # name mapping
     if fmt == "uai":
         order = sorted(range(n), key=lambda v: (str(card[v]), names[v]))
